@@ -32,7 +32,12 @@ LIB_SAM = ["xos", "xos2", "xos3", "xos12", "xs", "xs2", "xs3", "xs6", "oxs", "k_
 
 
 @st.composite
-def cases(draw, max_n: int, big_r: bool):
+def cases(draw, max_n: int, big_r: bool, min_n: int = 3):
+    if min_n > 6:
+        game = draw(sam_games(min_n, max_n))          # seeded construction for large n
+        n = game["n"]
+        k = seeded_knowledge(n, draw(st.integers(0, 2**31)))
+        return {"game": game, "K": k, "rs": [draw(st.sampled_from([0, 1, 2]))], "previous": None}
     if draw(st.integers(0, 9)) == 0:
         n = draw(st.integers(3, min(max_n, 5)))
         name = draw(st.sampled_from(LIB_SAM))
@@ -154,10 +159,12 @@ def _sample(case):
 
 def plan(tier: str) -> list[dict]:
     if tier == "quick":
-        return [{"max_n": 5, "examples": 500, "big_r": False, "cost": 3} for _ in range(3)] + [{"max_n": 6, "examples": 120, "big_r": False, "cost": 3}]
+        return ([{"max_n": 5, "examples": 500, "big_r": False, "cost": 3} for _ in range(3)] + [{"max_n": 6, "examples": 120, "big_r": False, "cost": 3}]
+                + [{"max_n": 9, "min_n": 9, "examples": 3, "big_r": False, "cost": 3}])
     return ([{"max_n": 5, "examples": 6000, "big_r": True, "cost": 8} for _ in range(10)]
-            + [{"max_n": 6, "examples": 1500, "big_r": True, "cost": 10} for _ in range(6)])
+            + [{"max_n": 6, "examples": 1500, "big_r": True, "cost": 10} for _ in range(5)]
+            + [{"max_n": 9, "min_n": 8, "examples": 25, "big_r": False, "cost": 10}])
 
 
 def run_shard(spec: dict, ctx: Ctx) -> None:
-    ctx.run_given(cases(spec["max_n"], spec["big_r"]), check_case, spec["examples"], sample_of=_sample)
+    ctx.run_given(cases(spec["max_n"], spec["big_r"], spec.get("min_n", 3)), check_case, spec["examples"], sample_of=_sample, shrink=spec.get("min_n", 3) <= 6)
